@@ -487,8 +487,10 @@ check(
           "before the query is written), unknown packet code, valid but unhandled code (Hello/Pong/Extremes/TablesStatus/"
           "PartUUIDs/ReadTask), undecodable block then close, 1-3 surplus header blocks}. Distinct = hash of (scenario, fault, "
           "schedule). Non-trivial = the fault took effect and both the sender and the receiver ran after gating started."),
-    quick=[unit("client", "^TestC04", checks=15000, timeout=900)],
-    thorough=[unit("client", "^TestC04", checks=80000, timeout=8000, shards=16)],
+    quick=[unit("client", "^TestC04FailedQuery", checks=15000, timeout=900),
+           unit("client", "^TestC04ChattyServer", checks=2000, timeout=900)],
+    thorough=[unit("client", "^TestC04FailedQuery", checks=80000, timeout=8000, shards=16),
+              unit("client", "^TestC04ChattyServer", checks=20000, timeout=8000, shards=4)],
     manifest=dict(
         text="Fault enumeration over scenarios x fault kinds x fault positions x gate-level schedules with the oracle: Do "
              "returns within readTimeout x (packets+3) + 3s of virtual time; then either the client is closed (Close was called, "
